@@ -1,10 +1,11 @@
 (* C20  A sub-project task lasts exactly as long as the sub-project it stands
    for.  Statements only; proofs in Proofs/C20Proof.v.
-   PARTIAL: the trace-level statement (the task is logged WORKING at exactly N
-   consecutive working steps of the parent run, starting at the step at which
-   its ready gate first holds) is assembled from the per-step theorems below
-   and C01/C02/C06 but is not stated as one theorem over runs; it is checked
-   on the implementation by the oracle. *)
+   The run-level statement (the task is logged WORKING at exactly
+   ceil(remaining work / rate) working steps of the parent run, from the first
+   working step at which it is READY until it is FINISHED) is
+   C20_working_steps_in_the_run.  The model treats a configured sub-project
+   task as an automatic task of the parent; the real class inside the parent
+   run is checked on the implementation by the oracle. *)
 From Coq Require Import List ZArith QArith Qround Bool Arith.
 From PV Require Import Model.Types Model.Sim Model.Subproject Proofs.Base Proofs.C01Proof Proofs.C20Proof Proofs.RunLemmas Proofs.C20Run.
 Import ListNotations.
